@@ -171,6 +171,32 @@ def verifyCR (p : Product) (e : Env) (amountIn amountOut : Int) : Bool :=
   | none => false
   | some r => if e.esm then decide (r ≥ Dec.one) else decide (r ≥ p.minCr)
 
+/-- the debt asset's price the product uses: the oracle's, or the product's fixed price -/
+def debtPrice (p : Product) (e : Env) : Option Nat := if p.outOracle then e.priceOut else some p.outPrice
+
+/-- **Exact content of the ratio check**, multiplied out over the integers (`P = 10^18`, `m = minCr` as an 18-digit
+fixed-point integer, `dIn`/`dOut` the decimal scales):
+
+`(2m − 1)·dIn·(2·debt·pOut·P² − (P+2)·dOut + 2)  ≤  2·P·dOut·(2·amountIn·pIn·P² + dIn·P)`
+
+Dividing by `4·P³·dIn·dOut`: the exact collateral value `amountIn·pIn/dIn` plus half a unit of the 18th digit is at least
+(minCr − half a unit) × (the exact debt value `debt·pOut/dOut` minus half a unit and one truncation step).
+Proved of every accepted message in `Props/C03.lean`; evaluated on the real vaults by the driver (`ratio_exact`). -/
+def ExactRatio (p : Product) (pin pout : Nat) (amountIn debt : Int) : Prop :=
+  (2 * (p.minCr : Int) - 1) * p.decIn * (2 * (debt * (pout : Int) * Dec.P * Dec.P) - (Dec.P + 2) * p.decOut + 2)
+    ≤ 2 * Dec.P * p.decOut * (2 * (amountIn * (pin : Int) * Dec.P * Dec.P) + p.decIn * Dec.P)
+
+instance (p : Product) (pin pout : Nat) (a b : Int) : Decidable (ExactRatio p pin pout a b) := by
+  unfold ExactRatio; exact inferInstance
+
+/-- with decimal scales dividing `10^18` the values are exact and only the last division rounds:
+the exact ratio `(amountIn·pIn/dIn)/(debt·pOut/dOut)` is at least `minCr − ½·10⁻¹⁸` -/
+def ExactRatioScales (p : Product) (pin pout : Nat) (amountIn debt : Int) : Prop :=
+  (2 * (p.minCr : Int) - 1) * (debt * (pout : Int) * p.decIn) ≤ 2 * Dec.P * (amountIn * (pin : Int) * p.decOut)
+
+instance (p : Product) (pin pout : Nat) (a b : Int) : Decidable (ExactRatioScales p pin pout a b) := by
+  unfold ExactRatioScales; exact inferInstance
+
 /-- `GetAmountOfOtherToken` with both rates = 1 (stable mint): amount of asset 2 for `amt` of asset 1. -/
 def otherToken (amt : Int) (dec1 dec2 : Int) : Int :=
   let t1d := Dec.quo (Dec.mul (Dec.ofInt amt) Dec.one) (Dec.ofInt dec1)
